@@ -14,8 +14,9 @@ type Field struct {
 	Ty       *Ty
 	Tag      string // raw struct tag (without back quotes)
 	Embedded bool
-	EmptyEmb bool // embedded struct type without fields (skipped by gombok)
-	JoinNext bool // printed as `a, b T` together with the next field
+	EmptyEmb bool   // embedded struct type without fields (skipped by gombok)
+	JoinNext bool   // printed as `a, b T` together with the next field
+	EmbKind  string // embedded fields: which kind of type is embedded (see embedded.go); "" for the legacy Emb / EmbNE of the JSON flavour
 }
 
 // Public follows gombok's metafp.StructField.Public: first rune is not a lower-case letter
@@ -43,6 +44,28 @@ func (f Field) Vis() string {
 }
 
 func (f Field) PubName() string { return strings.ToUpper(f.Name[:1]) + f.Name[1:] }
+
+// MutableName is the name of the field's counterpart in the generated Mutable twin: the
+// public spelling of the field name; an embedded field stays embedded (same name).
+func (f Field) MutableName() string {
+	if f.Embedded {
+		return f.Name
+	}
+	return f.PubName()
+}
+
+// Kept lists the fields gombok is documented to keep in AsTuple / Unapply / Apply / AsMap /
+// FromMap / AsMutable / AsImmutable / constructors, in declaration order: everything except
+// `_`-prefixed fields and embedded EMPTY structs.
+func (s *Struct) Kept() []Field {
+	var out []Field
+	for _, f := range s.Fields {
+		if f.Applicable() {
+			out = append(out, f)
+		}
+	}
+	return out
+}
 
 // TParam is a type parameter of a struct spec.
 type TParam struct {
